@@ -159,6 +159,11 @@ func (r *DeviceLocal) RemoveRemoteDevice(ski string) {
 		return
 	}
 
+	// messages of this connection are not served anymore from now on
+	if device, ok := remoteDevice.(*DeviceRemote); ok {
+		device.removed.Store(true)
+	}
+
 	// remove all subscriptions for this device
 	subscriptionMgr := r.SubscriptionManager()
 	subscriptionMgr.RemoveSubscriptionsForDevice(remoteDevice)
@@ -166,11 +171,6 @@ func (r *DeviceLocal) RemoveRemoteDevice(ski string) {
 	// remove all bindings for this device
 	bindingMgr := r.BindingManager()
 	bindingMgr.RemoveBindingsForDevice(remoteDevice)
-
-	// messages of this connection are not served anymore from now on
-	if device, ok := remoteDevice.(*DeviceRemote); ok {
-		device.removed.Store(true)
-	}
 
 	r.mux.Lock()
 	delete(r.remoteDevices, ski)
